@@ -327,10 +327,13 @@ pub fn check_unit(
                 c9(ctx, "fc_within_transient", fc.pwr_brake.value <= band(pfc.pwr_out_max.value),
                     format!("fc shaft {} > published transient limit {}", fc.pwr_brake.value, pfc.pwr_out_max.value), json!({"published_w": pfc.pwr_out_max.value, "shaft_w": fc.pwr_brake.value}));
                 let floor = c.fc.pwr_out_max_init.value.max(rating / 10.0);
-                let ramp = pre.fc.unwrap().pwr_brake.value + rating / c.fc.pwr_ramp_lag.value * dt;
+                // previous shaft power = what the generator actually drew in the previous step (the physical
+                // hand-off), not the engine's own record of it, so a stale engine record cannot fool the monitor
+                let prev_shaft = pre.gen.unwrap().pwr_mech_in.value.min(pre.fc.unwrap().pwr_brake.value);
+                let ramp = prev_shaft + rating / c.fc.pwr_ramp_lag.value * dt;
                 c9(ctx, "fc_ramp_rate", pfc.pwr_out_max.value <= ramp.max(floor) * (1.0 + 1e-12),
                     format!("published fc limit {} > max(prev shaft + rating/lag*dt = {}, floor {})", pfc.pwr_out_max.value, ramp, floor),
-                    json!({"published_w": pfc.pwr_out_max.value, "prev_shaft_w": pre.fc.unwrap().pwr_brake.value, "ramp_w": ramp, "floor_w": floor}));
+                    json!({"published_w": pfc.pwr_out_max.value, "prev_shaft_w": prev_shaft, "fc_record_of_prev_shaft_w": pre.fc.unwrap().pwr_brake.value, "ramp_w": ramp, "floor_w": floor}));
                 c9(ctx, "fc_limit_le_rating", pfc.pwr_out_max.value <= rating.max(floor) * (1.0 + 1e-12), format!("published fc limit {} > rating {}", pfc.pwr_out_max.value, rating), json!({}));
                 c9(ctx, "gen_within_rating", gen.pwr_elec_prop_out.value + gen.pwr_elec_aux.value <= c.gen.pwr_out_max.value * (1.0 + 1e-12),
                     format!("gen out {} > rating {}", gen.pwr_elec_prop_out.value + gen.pwr_elec_aux.value, c.gen.pwr_out_max.value), json!({}));
@@ -436,7 +439,7 @@ pub fn classify_err(msg: &str) -> &'static str {
     }
 }
 
-const DELTAS: [f64; 11] = [0.0, -1e-9, -1e-4, -2e-3, -1e-2, -0.5, 1e-9, 1e-4, 2e-3, 1e-2, 0.5];
+const DELTAS: [f64; 13] = [0.0, -1e-9, -1e-4, -2e-3, -1e-2, -0.5, 1e-9, 1e-4, 2e-3, 5e-3, 1e-2, 5e-2, 0.5];
 
 struct Adversary {
     mode: usize,
